@@ -23,7 +23,8 @@ BY_PROPERTY = {
              'Mahotas.pybody_c02Prims_consistent']),
     'C16': ('Mahotas.Proofs.PyBodyTiesC16', ['Mahotas.pybody_thresholding_gbernsen_eq_model',
                                              'Mahotas.pybody_thresholding_otsu_eq_model']),
-    'C06': ('Mahotas.Proofs.PyBodyTiesC06', ['Mahotas.pybody_convolve_gaussian_filter1d_eq_model']),
+    'C06': ('Mahotas.Proofs.PyBodyTiesC06', ['Mahotas.pybody_convolve_gaussian_filter1d_eq_model',
+                                             'Mahotas.pybody_convolve_laplacian_2D_eq_model']),
 }
 LEAN_TARGETS = [m for m, _ in BY_PROPERTY.values()]
 THEOREMS = {m: list(t) for m, t in BY_PROPERTY.values()}
